@@ -637,7 +637,7 @@ func (st *State) builtinAppend(fr *Frame, in ssa.Instruction, args []Val, pos to
 		st.setArr(name, arr2Sort(c.Sort), store(a, resBase, newInner))
 	}
 	res := Val{T: s.T, C: []string{resBase, resOff, newLen, resCap}}
-	st.assume(fmt.Sprintf("(> %s 1000)", resBase))
+	st.assume(fmt.Sprintf("(not (= %s 0))", resBase))
 	st.setResult(fr, in, res)
 }
 
@@ -666,6 +666,6 @@ func (st *State) appendStructs(fr *Frame, in ssa.Instruction, s, add Val, pos to
 		st.assume(fmt.Sprintf("(forall ((r Int)) (! (=> (not (and (= (el_base r) %s) (<= %s (el_idx r)) (< (el_idx r) (+ %s %s)))) (= (select %s r) (select %s r))) :pattern ((select %s r))))",
 			resBase, resOff, resOff, newLen, na, a, na))
 	}
-	st.assume(fmt.Sprintf("(> %s 1000)", resBase))
+	st.assume(fmt.Sprintf("(not (= %s 0))", resBase))
 	st.setResult(fr, in, Val{T: s.T, C: []string{resBase, resOff, newLen, resCap}})
 }
